@@ -52,6 +52,19 @@ def lutDomain (b : BlockOp) : Except String (Int × Nat) := do
     let (lo, _) := ofmRange b.ofm
     pure (lo, 8 * b.ofm.elemBytes)
 
+/-- output stage without a table (A7): a 32-bit OFM receives `v` saturated to the int32 range (no zero point, no
+    ACTIVATION_MIN/MAX clamp); a narrower OFM receives `clamp (v + zero point)`.  (Factored out of `finishWide` so that
+    `Spec/SoftmaxExec.lean` interprets the SOFTMAX program with the same function the executor runs.) -/
+def outPlain (ofm32 : Bool) (ozp actMin actMax : Int) (v : Int) : Int :=
+  if ofm32 then clamp v INT32_LO INT32_HI else clamp (v + ozp) actMin actMax
+
+/-- offset of the table entry a TABLE_LOOKUP output stage selects (A8): `v + zero point` clamped to
+    ACTIVATION_MIN/MAX, relative to the lowest value `lo` of the index range of `bits` bits -/
+def lutOffset (lo : Int) (bits : Nat) (ozp actMin actMax : Int) (v : Int) : Except String Int :=
+  let w := clamp (v + ozp) actMin actMax
+  let off := w - lo
+  if off < 0 ∨ off ≥ (2 : Int) ^ bits then throw "lut index out of range" else pure off
+
 /-- Output stage of a wide operation, applied to the scaled value `v` (before the zero point):
     * no table: a 32-bit OFM receives `v` saturated to the int32 range (no zero point, no ACTIVATION_MIN/MAX
       clamp); narrower OFMs receive `clamp (v + zero point)`;
@@ -64,12 +77,10 @@ def finishWide (m : Mem) (ctx : Ctx) (b : BlockOp) (v : Int) : Except String Int
   let act := b.activation % 4096
   let ozp := b.ofm.zeroPoint
   if act = 0 then
-    if is32 b.ofm then pure (clamp v INT32_LO INT32_HI) else pure (clamp (v + ozp) b.actMin b.actMax)
+    pure (outPlain (is32 b.ofm) ozp b.actMin b.actMax v)
   else if act ≥ 16 ∧ act < 24 then
     let (lo, bits) ← lutDomain b
-    let w := clamp (v + ozp) b.actMin b.actMax
-    let off := w - lo
-    if off < 0 ∨ off ≥ (2 : Int) ^ bits then throw "lut index out of range"
+    let off ← lutOffset lo bits ozp b.actMin b.actMax v
     let tableBase := ctx.lutBase + (act - 16) * 256
     if bits = 8 then
       if b.ofm.elemBytes = 1 then
@@ -105,6 +116,38 @@ def gatherIfm2 (m : Mem) (b : BlockOp) (regs : RegFile) (unaryOp : Bool) : Excep
     pure (#[sv], 1, 1, 1)
   | none, none => if unaryOp then pure (#[], 1, 1, 1) else throw "binary elementwise operation without second operand"
 
+/-- value of one element of a wide elementwise operation before the output stage: `a`, `bb` are the operands in
+    OPA / OPB order with their zero points removed (the loop body of `execElementwiseWide`; a function of its own so that
+    `Spec/SoftmaxExec.lean` interprets the SOFTMAX program with it) -/
+def ewWideValue (mode : Nat) (in32 globalScale bits16 : Bool) (rounding : Rounding) (opToScale opa opb ofs : Nat)
+    (a bb : Int) : Except String Int :=
+  match mode with
+  | 0 =>                                                                                   -- MUL
+    if in32 then pure (npuScale rounding (a * bb) 1 (hi6 ofs))
+    else pure (npuScale rounding (a * bb) (lo32 ofs) (hi6 ofs))
+  | 1 | 2 =>                                                                               -- ADD / SUB
+    if !globalScale then throw "unsupported:add-without-scaling" else
+    if in32 then
+      if opToScale ≠ 0 ∨ lo32 opa % 65536 ≠ 1 ∨ lo32 opb % 65536 ≠ 1 ∨ lo32 ofs ≠ 1 then throw "unsupported:int32-add-with-scaling" else
+      pure (npuScale rounding (if mode = 1 then a + bb else a - bb) 1 (hi6 ofs))
+    else
+      let (sa, sb) := addOperands opToScale bits16 a bb (lo32 opa) (hi6 opa) (lo32 opb)
+      pure (npuScale rounding (if mode = 1 then sa + sb else sa - sb) (lo32 ofs) (hi6 ofs))
+  | 3 => pure (min a bb)
+  | 4 => pure (max a bb)
+  | 5 => if in32 then throw "unsupported:int32-lrelu" else
+         pure (if a ≥ 0 then a else npuScale rounding a (lo32 ofs) (hi6 ofs))             -- LRELU
+  | 6 => if in32 then throw "unsupported:int32-abs" else
+         pure (npuScale rounding (if a ≥ 0 then a else -a) (lo32 ofs) (hi6 ofs))           -- ABS
+  | 7 => pure (clz32 a)                                                                    -- CLZ
+  | 8 =>                                                                                   -- SHR (rounded by the OFM rounding mode)
+    if bb < 0 ∨ bb > 63 then throw "unsupported:shr-amount-out-of-range" else
+    pure (npuScale rounding a 1 bb.toNat)
+  | 9 =>                                                                                   -- SHL
+    if bb < 0 ∨ bb > 31 then throw "unsupported:shl-amount-out-of-range" else
+    fits32 (a * (2 : Int) ^ bb.toNat)
+  | _ => throw s!"unsupported:elementwise{mode}"
+
 def execElementwiseWide (m : Mem) (ctx : Ctx) (b : BlockOp) (regs : RegFile) (rounding : Rounding) : Except String Mem := do
   let mode := b.subOp
   if mode > 9 then throw s!"unsupported:elementwise{mode}"
@@ -135,34 +178,13 @@ def execElementwiseWide (m : Mem) (ctx : Ctx) (b : BlockOp) (regs : RegFile) (ro
         let x2 : Int := if unaryOp then 0 else
           ifm2.getD (((if h2 = 1 then 0 else oy) * w2 + (if w2 = 1 then 0 else ox)) * d2 + (if d2 = 1 then 0 else oc)) 0 - ifm2Zp
         let (a, bb) := if reversed then (x2, x1) else (x1, x2)
-        let v ← match mode with
-          | 0 =>                                                                                   -- MUL
-            if in32 then pure (npuScale rounding (a * bb) 1 (hi6 ofs))
-            else pure (npuScale rounding (a * bb) (lo32 ofs) (hi6 ofs))
-          | 1 | 2 =>                                                                               -- ADD / SUB
-            if !globalScale then throw "unsupported:add-without-scaling" else
-            if in32 then
-              if opToScale ≠ 0 ∨ lo32 opa % 65536 ≠ 1 ∨ lo32 opb % 65536 ≠ 1 ∨ lo32 ofs ≠ 1 then throw "unsupported:int32-add-with-scaling" else
-              pure (npuScale rounding (if mode = 1 then a + bb else a - bb) 1 (hi6 ofs))
-            else
-              let (sa, sb) := addOperands opToScale (b.ifm.elemBytes = 2) a bb (lo32 opa) (hi6 opa) (lo32 opb)
-              pure (npuScale rounding (if mode = 1 then sa + sb else sa - sb) (lo32 ofs) (hi6 ofs))
-          | 3 => pure (min a bb)
-          | 4 => pure (max a bb)
-          | 5 => if in32 then throw "unsupported:int32-lrelu" else
-                 pure (if a ≥ 0 then a else npuScale rounding a (lo32 ofs) (hi6 ofs))             -- LRELU
-          | 6 => if in32 then throw "unsupported:int32-abs" else
-                 pure (npuScale rounding (if a ≥ 0 then a else -a) (lo32 ofs) (hi6 ofs))           -- ABS
-          | 7 => pure (clz32 a)                                                                    -- CLZ
-          | 8 =>                                                                                   -- SHR (rounded by the OFM rounding mode)
-            if bb < 0 ∨ bb > 63 then throw "unsupported:shr-amount-out-of-range" else
-            pure (npuScale rounding a 1 bb.toNat)
-          | 9 =>                                                                                   -- SHL
-            if bb < 0 ∨ bb > 31 then throw "unsupported:shl-amount-out-of-range" else
-            fits32 (a * (2 : Int) ^ bb.toNat)
-          | _ => throw s!"unsupported:elementwise{mode}"
+        let v ← ewWideValue mode in32 globalScale (b.ifm.elemBytes = 2) rounding opToScale opa opb ofs a bb
         out := out.push (← finishWide m ctx b v)
   scatter m b.ofm out
+
+/-- REDUCE_SUM of the channels `vals` of one position (A11): sum of the zero-point-corrected values, then the global OFM scale -/
+def reduceSumValue (rounding : Rounding) (scale shift : Nat) (zp : Int) (vals : List Int) : Int :=
+  npuScale rounding (vals.foldl (fun acc x => acc + (x - zp)) (0 : Int)) scale shift
 
 /-- REDUCE_SUM: the OFM has depth 1; element (y, x) is the sum of the IFM elements (y, x, ·) -/
 def execReduceSum (m : Mem) (ctx : Ctx) (b : BlockOp) (rounding : Rounding) : Except String Mem := do
@@ -182,8 +204,8 @@ def execReduceSum (m : Mem) (ctx : Ctx) (b : BlockOp) (rounding : Rounding) : Ex
   let mut out : Array Int := Array.mkEmpty (b.ofm.height * W)
   for oy in [0:b.ofm.height] do
     for ox in [0:W] do
-      let s := (List.range C).foldl (fun acc c => acc + (ifm.getD ((oy * W + ox) * C + c) 0 - b.ifm.zeroPoint)) (0 : Int)
-      out := out.push (← finishWide m ctx b (npuScale rounding s scale shift))
+      let s := reduceSumValue rounding scale shift b.ifm.zeroPoint ((List.range C).map fun c => ifm.getD ((oy * W + ox) * C + c) 0)
+      out := out.push (← finishWide m ctx b s)
   scatter m b.ofm out
 
 /-- convolution / depthwise convolution with a 32-bit OFM: the scaled accumulator is written as it is -/
